@@ -6,7 +6,7 @@ Export schema as SDL.
 import itertools
 from typing import Any, Sequence, Union
 
-from .._string_utils import wrapped_lines
+from .._string_utils import parse_block_string, wrapped_lines
 from .._utils import flatten
 from ..lang import print_ast
 from ..schema import (
@@ -166,6 +166,15 @@ class ASTSchemaPrinter:
                 )
                 + "\n"
                 + indent
+            )
+
+        if parse_block_string(body) != "\n".join(lines):
+            # Not every text can be written as a block string (e.g. when all
+            # the lines after an indented first line are indented as well).
+            return "%s%s%s\n" % (
+                "\n" if indent and not first_in_block else "",
+                indent,
+                print_ast(ast_node_from_value("\n".join(lines), String)),
             )
 
         return '%s%s"""%s"""\n' % (
